@@ -124,13 +124,15 @@ theorem pbToTxs_map (ts : List Tx) : pbToTxs (ts.map txToPb) = .ok (ts.map normT
   | nil => rfl
   | cons t ts ih => simp only [List.map_cons, pbToTxs, tx_convert_roundtrip, ih]
 
-theorem normBlock_idem (b : Block) : normBlock (normBlock b) = normBlock b := by
+theorem normBlock_idem (b : Block) (hs : ∀ t ∈ b.txs, SubTxStable t.subTx) :
+    normBlock (normBlock b) = normBlock b := by
   cases b with
   | mk header txs =>
+  simp only at hs
   simp only [normBlock, Option.map_map, List.map_map]
   congr 1
   · cases header <;> simp [normHeader_idem]
-  · exact List.map_congr_left (fun t _ => normTx_idem t)
+  · exact List.map_congr_left (fun t ht => normTx_idem_partial t (hs t ht))
 
 /-- Every byte string `MarshalBlock` emits for `b` fits the framing, at every nesting level. -/
 def BlockFits (b : Block) : Prop :=
